@@ -1,4 +1,6 @@
 import QuartzModel.Sched.Model
+import QuartzModel.Cron.Parse
+import QuartzModel.Generated.Facts
 import Driver.QueueEngine
 /-! scheduler engine (registry operations + dispatch step) of the line-protocol driver -/
 namespace Driver
@@ -35,6 +37,14 @@ def parseTrig (s : String) : Option (Option Trig) :=
   | 'R' :: r => (parseInt? (String.ofList r)).map (fun i => some (.runOnce i false))
   | 'F' :: r => (parseInt? (String.ofList r)).map (fun i => some (.fixed i))
   | 'X' :: r => (parseAnswers (String.ofList r)).map (fun a => some (.script a))
+  | 'C' :: r =>
+    -- a real CronTrigger: C<code points of the expression>:<offset seconds>
+    match (String.ofList r).splitOn ":" with
+    | [e, off] =>
+      match decodeRunes e, parseInt? off with
+      | some cs, some c => (Cron.newTrigger Generated.bounds cs).map (fun f => some (.cron f c))
+      | _, _ => none
+    | _ => none
   | _ => none
 
 def showClass : Class → String
